@@ -41,7 +41,110 @@ type EmbDeep struct {
 	}
 }
 
+// Unit is a NAMED empty struct: map[K]Unit is not a set for the set->slice
+// mangler (which documents map[T]struct{}); it must be left alone.
+type Unit struct{}
+
+// NestA, NestB, NestC are differently typed nested struct members.
+type NestA struct {
+	AaNum  int
+	AaText string
+}
+
+// NestB has collections, a duration and a map of named empty structs.
+type NestB struct {
+	BbFlag  bool
+	BbList  []string
+	BbEvery time.Duration
+	BbUnits map[string]Unit
+}
+
+// NestC has a real set.
+type NestC struct {
+	CcRatio float64
+	CcSet   map[string]struct{}
+}
+
+// EmbMulti is an embeddable struct with three differently typed nested struct
+// members (by value and by pointer) between scalar leaves: hoisting it gives
+// one input field several struct-typed outputs of different types.
+type EmbMulti struct {
+	EmLead  int
+	EmFirst NestA
+	EmMid   *NestB
+	EmLast  NestC
+	EmTail  string
+}
+
+// EmbPair has two differently typed nested struct members and nothing else.
+type EmbPair struct {
+	EpOne NestC
+	EpTwo NestA
+}
+
+// EmbHidden has unexported fields in first, middle and LAST position.
+type EmbHidden struct {
+	front int
+	EhNum int
+	mid   string
+	EhTxt string
+	back  bool
+}
+
+// ---- elements of slices of structs with embedded structs (elements are not
+// pointerified, so their unexported fields reach the manglers) ----
+
+// TrailFirst has an unexported field in first position.
+type TrailFirst struct {
+	lead   int
+	TfOnly int
+}
+
+// TrailMid has an unexported field between two exported ones.
+type TrailMid struct {
+	TmOne int
+	mid   int
+	TmTwo string
+}
+
+// TrailLast has an unexported field AFTER its last exported one.
+type TrailLast struct {
+	TlNum  int
+	TlText string
+	tail   int
+}
+
+// TrailDeep has two differently typed nested struct members.
+type TrailDeep struct {
+	TdAlpha NestA
+	TdGamma NestC
+}
+
+// Cart embeds structs with unexported fields in first and middle position and
+// one with nested struct members.
+type Cart struct {
+	TrailFirst
+	Qty int
+	TrailMid
+	TrailDeep
+}
+
+// Wagon embeds a struct whose LAST field is unexported.
+type Wagon struct {
+	Load int
+	TrailLast
+}
+
+var _ = []any{EmbHidden{}.front, EmbHidden{}.mid, EmbHidden{}.back, TrailFirst{}.lead, TrailMid{}.mid, TrailLast{}.tail}
+
 func init() {
+	shape.RegisterBase("Unit", reflect.TypeOf(Unit{}))
+	shape.RegisterBase("IntKeyUnit", reflect.TypeOf(map[int]Unit{}))
+	shape.RegisterBase("EmbMulti", reflect.TypeOf(EmbMulti{}))
+	shape.RegisterBase("EmbPair", reflect.TypeOf(EmbPair{}))
+	shape.RegisterBase("EmbHidden", reflect.TypeOf(EmbHidden{}))
+	shape.RegisterBase("Cart", reflect.TypeOf(Cart{}))
+	shape.RegisterBase("Wagon", reflect.TypeOf(Wagon{}))
 	shape.RegisterBase("Job", reflect.TypeOf(Job{}))
 	shape.RegisterBase("TagSet", reflect.TypeOf(TagSet(nil)))
 	shape.RegisterBase("EmbTag", reflect.TypeOf(EmbTag{}))
@@ -67,6 +170,14 @@ var staticWords = map[string][]string{
 	"EtPort": {"et", "port"}, "EtName": {"et", "name"}, "EtEvery": {"et", "every"},
 	"EdFlag": {"ed", "flag"}, "EdInner": {"ed", "inner"}, "Level": {"level"}, "Set": {"set"},
 	"Name": {"name"}, "Every": {"every"}, "Tags": {"tags"}, "When": {"when"}, "Weight": {"weight"}, "Hosts": {"hosts"}, "Waits": {"waits"},
+	"EmbMulti": {"emb", "multi"}, "EmbPair": {"emb", "pair"}, "EmbHidden": {"emb", "hidden"},
+	"EmLead": {"em", "lead"}, "EmFirst": {"em", "first"}, "EmMid": {"em", "mid"}, "EmLast": {"em", "last"}, "EmTail": {"em", "tail"},
+	"EpOne": {"ep", "one"}, "EpTwo": {"ep", "two"}, "EhNum": {"eh", "num"}, "EhTxt": {"eh", "txt"},
+	"AaNum": {"aa", "num"}, "AaText": {"aa", "text"}, "BbFlag": {"bb", "flag"}, "BbList": {"bb", "list"}, "BbEvery": {"bb", "every"}, "BbUnits": {"bb", "units"},
+	"CcRatio": {"cc", "ratio"}, "CcSet": {"cc", "set"},
+	"TrailFirst": {"trail", "first"}, "TrailMid": {"trail", "mid"}, "TrailLast": {"trail", "last"}, "TrailDeep": {"trail", "deep"},
+	"TfOnly": {"tf", "only"}, "TmOne": {"tm", "one"}, "TmTwo": {"tm", "two"}, "TlNum": {"tl", "num"}, "TlText": {"tl", "text"},
+	"TdAlpha": {"td", "alpha"}, "TdGamma": {"td", "gamma"}, "Qty": {"qty"}, "Load": {"load"},
 	"X": {"x"}, "Y": {"y"}, "Vals": {"vals"}, "M": {"m"}, "P": {"p"},
 }
 
